@@ -21,7 +21,7 @@ checks = {
              text="For every node of every error-free tree of the workload: start/end = first/last own token under the documented conventions, nesting, sibling order, lines.",
              note="Conventions encoded are exactly those in the property text and DESIGN §6 C05.", ref="§6 C05"),
  "C06": dict(technique="runtime monitor over recorded error-callback event sequences; guaranteed-breaking edits (counting argument, deleted mandatory operands and last list elements, nested __halt_compiler, PHP 5 compile-time errors, unterminated last heredoc) as fault injection; nesting depth up to 70 000 as a stress dimension; callback-vs-nil and nested-parse (re-entrancy) differential monitors",
-             text="Valid generated programs with an edit that is invalid by a bracket/operator counting argument must deliver >= 1 error, as must PHP 5 compile-time errors (trait extends/implements, reference key) and a lengthened closing label of the last heredoc, and programs from which a mandatory operand (catch variable, condition, right side of an assignment, class of new, member name ...; 27 node.role rules) or the last element of a list without trailing separator (19 lists) was deleted, or into which __halt_compiler(); was inserted below the outermost level; nesting constructs 60..70 000 deep must parse silently and completely when valid and deliver an error with one closer removed or one opener doubled; every delivered error is checked for message, range, line, order; callback vs nil trees compared by full fingerprint; the real CLI (-e -p) over directories of malformed files must print, per file, exactly the errors delivered for that file alone.",
+             text="Valid generated programs with an edit that is invalid by a bracket/operator counting argument must deliver >= 1 error, as must PHP 5 compile-time errors (trait extends/implements, reference key) and a lengthened closing label of the last heredoc, and programs from which a mandatory operand (catch variable, condition, right side of an assignment, class of new, member name ...; 27 node.role rules) or the last element of a list without trailing separator (19 lists) was deleted, or into which __halt_compiler(); was inserted below the outermost level; nesting constructs 60..70 000 deep must parse silently and completely when valid and deliver an error with one closer removed or one opener doubled; programs with a flexible heredoc terminator under every version below 7.3 must deliver an error; every delivered error is checked for message, range, line, order (the position-less end-of-input error last); callback vs nil trees compared by full fingerprint; the real CLI (-e -p) over directories of malformed files must print, per file, exactly the errors delivered for that file alone.",
              note="'Invalid' is only asserted for edits invalid by construction.", ref="§6 C06"),
  "C07": dict(technique="runtime monitor: prefix-statement equality oracle, ordered-subsequence oracle on multi-error files (in 16 list contexts incl. closures inside interpolations), prefix oracle on truncated programs, block-containment oracle for a forgotten semicolon in the last statement of a braced list, and provenance checker on printed recovery trees",
              text="Statement lists with a benign malformed statement inserted: preceding statements must equal their stand-alone parse (tokens, positions), following ones must be present; burst cases with up to 90 malformed statements between well-formed ones (top level, or inside one of 15 wrappers: function/method/closure bodies, blocks, alternative-syntax, try/finally bodies, closures written inside six interpolation forms), all of which must be found again in order; programs cut off behind a PRNG token: if a tree is returned, the complete top-level statements before the cut are its first statements, identical to the clean parse; a benign malformed statement must never cost the tree, nor the top-level statements behind the one it is in; every tree returned with errors is printed through the provenance writer: only source chunks, once, in order.",
@@ -39,7 +39,7 @@ checks = {
              text="Batches of 2..32 goroutines x GOMAXPROCS {1,2,4,16} run parse/print/dump/traverse/resolve/format pipelines (incl. a dump and a print into a writer that fails after a few bytes) on different inputs, concurrent phase first and the sequential baseline afterwards in the same process; every result must equal the baseline; the -race twin reports de-duplicated race reports as violations and runs the CLI worker pool over a generated directory (-d -r -e -p -pb), comparing rewritten files and the multiset of dumps with the results obtained alone; every fourth case re-parses one input after each of a list of predecessors (itself, truncations, escaped-byte variants sharing its offsets, unrelated inputs) and requires the first result every time; after each batch one shared Traverser walks all trees of the batch concurrently (counting visitor: every node exactly once; race twin: stateless visitor); one pipeline per batch (and every lexeme-soup job) is compared with the same pipeline run by a fresh process.",
              note="The race detector only sees interleavings that occur; diversity is measured and reported.", ref="§6 C11"),
  "C12": dict(technique="runtime monitor: recording visitor vs reflection pre-order oracle, exhaustive over node kinds x child-slot subsets, plus parsed trees",
-             text="Every node kind of ast.Visitor x slot subsets (all 2^k for k<=12) traversed with a recording visitor and compared with the reflection pre-order; parsed trees additionally checked for shared node objects and sibling source order.",
+             text="Every node kind of ast.Visitor x slot subsets (all 2^k for k<=12) traversed with a recording visitor and compared with the reflection pre-order; each synthetic node is also walked with a visitor that replaces the children of the node it is handed (the replacements must be presented, the detached children not); parsed trees additionally checked for shared node objects and sibling source order.",
              note="Trusted: reflection walker (field declaration order = slot order), generated recording visitor.", ref="§6 C12"),
  "C13": dict(technique="runtime monitor: pointer-level fingerprint and output-stability oracle over PRNG operation histories (two printer configurations, subtree print, four dump option sets, traversals, resolver, dump/print into failing writers; half of the histories through long-lived Dumper/Traverser objects); race-detector twin with two concurrent readers of one tree",
              text="PRNG histories over {print x3, dump x4, traverse(null), traverse(recording), resolve, Accept(null), dump and print into a failing writer} on parsed trees, for half of them with the worker's long-lived Dumper/Traverser objects: pointer-level fingerprint and guarded source must be unchanged after every operation and every output must equal the fresh-tree output.",
@@ -51,10 +51,10 @@ checks = {
              text="Every node kind x slot subsets with unique marker tokens/free-floating/leaves/separators: output must contain exactly the present markers in slot order, default separators where tokens are missing, and only PHP lexemes otherwise; parsed trees with one subtree replaced must print identically outside it; a token given a new value (position untouched) must print as the source with exactly that text replaced; a statement replaced by a token-less one (also right after inline HTML nested in blocks) must leave everything outside it unchanged.",
              note="Trusted: field order = source order (monitored on parsed trees by C04/C12).", ref="§6 C15"),
  "C16": dict(technique="runtime monitor: dump read back with go/parser and compared field by field with a reflection walk (token ids evaluated against the constant declarations), exhaustive over node kinds x slot subsets x 4 option sets, plus parsed trees (half of them through long-lived dumpers that have dumped other trees before)",
-             text="Every node kind x slot subsets (marker values incl. bytes that need quoting, unique positions) x {tokens,positions} option sets, plus parsed trees: valid Go, type, labels, presence, content, exclusion by options; a long-lived dumper's text must equal a new dumper's byte for byte; a node object standing twice in a list is rendered twice.",
+             text="Every node kind x slot subsets (marker values incl. bytes that need quoting, unique positions) x {tokens,positions} option sets, plus parsed trees: valid Go, type, labels, presence, content, exclusion by options; a long-lived dumper's text must equal a new dumper's byte for byte; a node object standing twice in a list is rendered twice; every second dump goes through Accept into a writer that has only Write; long-lived dumpers are re-used after a dump that broke off on a failing writer.",
              note="Trusted: go/parser as the definition of valid Go syntax.", ref="§6 C16"),
  "C17": dict(technique="runtime monitor: format/print/reparse round-trip structure oracle, idempotence and whitespace-layout-invariance oracles over generated programs, with reduction of a failing program to its focal construct",
-             text="Unit programs (one focal kind, one slot configuration) and composites: format+print must re-parse silently to the same structure, be identical across whitespace layouts, and be a fixed point; heredoc statements (7.3+, indented closing labels, binary prefix) included; scaled programs (one construct repeated or nested up to 60 times, 65 shapes) pass through the single-source checks.",
+             text="Unit programs (one focal kind, one slot configuration) and composites: format+print must re-parse silently to the same structure, be identical across whitespace layouts, and be a fixed point; heredoc statements (7.3+, indented closing labels, binary prefix) and brace names around plain variables (PHP 7) included; every passing program is also formatted by a long-lived formatter and printed only after that formatter formatted the next program; scaled programs (one construct repeated or nested up to 60 times, 65 shapes) pass through the single-source checks.",
              note="Known formatter defects are enumerated by signature in known-findings.jsonl.", ref="§6 C17"),
  "C18": dict(technique="runtime monitor over Pool.Get histories (pointer-distinctness and write-isolation oracle), exhaustive over a block-size grid plus long histories, pools of different sizes alive together, several parse trees kept alive (objects pairwise distinct across trees, no position object held twice within a tree), and concurrent position.NewPosition calls",
              text="Every request count 0..4*size+3 for each block size of the grid, long histories (200k/1.5M requests) and large blocks, for both pools, single, two interleaved pools of one size and 2..5 of different sizes, plus 2..5 Parse calls (sequential or concurrent) whose trees stay alive, plus position.NewPosition from 2..16 goroutines: the monitor observes every returned pointer and re-reads every object after writes through all others.",
